@@ -1,0 +1,226 @@
+//! Verification hooks (cargo feature `verif_hooks`).
+//!
+//! Everything in this module is inert unless an external harness installs a
+//! yield hook; it only exposes read-only views and thin wrappers over existing
+//! internals so that a harness can observe them.
+
+#![allow(missing_docs, missing_debug_implementations)]
+
+use std::sync::atomic::{AtomicBool, Ordering};
+use std::sync::{Arc, RwLock};
+
+use crate::token::TokenInner;
+use crate::{LoopHandle, RegistrationToken, Token, TokenFactory};
+
+/// Kind of a yield site.
+#[derive(Copy, Clone, Debug, PartialEq, Eq)]
+pub enum SiteKind {
+    /// An ordinary step.
+    Normal,
+    /// The calling thread may block in the kernel right after this site.
+    BlockingEntry,
+    /// The calling thread has just returned from a possibly blocking call.
+    BlockingExit,
+}
+
+/// Identifiers of the yield sites.
+#[allow(non_camel_case_types)]
+#[derive(Copy, Clone, Debug, PartialEq, Eq, Hash)]
+#[repr(u32)]
+pub enum Site {
+    PING_WRITE_PRE,
+    PING_WRITE_POST,
+    CLOSE_WRITE_PRE,
+    CLOSE_WRITE_POST,
+    PING_DRAIN_PRE,
+    PING_DRAIN_POST,
+    CH_SEND_PRE,
+    CH_SEND_MID,
+    CH_BLOCK_PRE,
+    CH_BLOCK_POST,
+    CH_DROP_PING,
+    CH_RECV_PRE,
+    CH_REPING_PRE,
+    EX_SEND_PRE,
+    EX_SEND_MID,
+    EX_SEND_POSTSWAP,
+    EX_CLEAR_PRE,
+    EX_CLEAR_POST,
+    EX_RECV_PRE,
+    EX_REPING_PRE,
+    EX_DROP_WAKE_PRE,
+    EX_DROP_DRAIN_PRE,
+    RUN_BEGAN,
+    RUN_CHECK,
+    POLL_PRE,
+    POLL_POST,
+    SIG_STOP_PRE,
+    SIG_STOP_POST,
+    SIG_WAKE_PRE,
+    SIG_WAKE_POST,
+    BO_WAKE_PRE,
+    BO_WAKE_MID,
+    BO_WAKE_POST,
+    BO_SWAP_PRE,
+    BO_SWAP_POST,
+}
+
+type Hook = Arc<dyn Fn(Site, SiteKind) + Send + Sync>;
+
+static HOOK_SET: AtomicBool = AtomicBool::new(false);
+static HOOK: RwLock<Option<Hook>> = RwLock::new(None);
+
+/// Install (or remove) the process-global yield hook.
+pub fn set_yield_hook(hook: Option<Hook>) {
+    let mut guard = HOOK.write().unwrap_or_else(|e| e.into_inner());
+    HOOK_SET.store(hook.is_some(), Ordering::SeqCst);
+    *guard = hook;
+}
+
+/// Called by calloop at every yield site.
+#[inline]
+pub fn yield_point(site: Site, kind: SiteKind) {
+    if !HOOK_SET.load(Ordering::Relaxed) {
+        return;
+    }
+    let hook = HOOK.read().unwrap_or_else(|e| e.into_inner()).clone();
+    if let Some(hook) = hook {
+        hook(site, kind);
+    }
+}
+
+/// Read-only statistics about the internal bookkeeping of a loop.
+#[derive(Clone, Debug, PartialEq, Eq)]
+pub struct VerifStats {
+    pub slots: usize,
+    pub occupied_slots: usize,
+    pub lifecycle_len: usize,
+    pub lifecycle_distinct: usize,
+    pub timer_heap_len: usize,
+    pub idles_len: usize,
+    pub pending_action_is_continue: bool,
+}
+
+impl<Data> LoopHandle<'_, Data> {
+    /// Snapshot of the loop bookkeeping.
+    pub fn verif_stats(&self) -> VerifStats {
+        let (slots, occupied_slots) = self.verif_inner().sources.borrow().verif_counts();
+        let (lifecycle_len, lifecycle_distinct) = {
+            let set = self
+                .verif_inner()
+                .sources_with_additional_lifecycle_events
+                .borrow();
+            let mut keys: Vec<usize> = set
+                .values
+                .iter()
+                .map(|t| t.verif_key())
+                .collect::<Vec<_>>();
+            let len = keys.len();
+            keys.sort_unstable();
+            keys.dedup();
+            (len, keys.len())
+        };
+        let timer_heap_len = self
+            .verif_inner()
+            .poll
+            .borrow()
+            .timers
+            .borrow()
+            .verif_heap_len();
+        let (idles_len, pending_action_is_continue) = self.verif_inner().verif_idles_pending();
+        VerifStats {
+            slots,
+            occupied_slots,
+            lifecycle_len,
+            lifecycle_distinct,
+            timer_heap_len,
+            idles_len,
+            pending_action_is_continue,
+        }
+    }
+
+    /// Keys of the lifecycle set, in order.
+    pub fn verif_lifecycle_keys(&self) -> Vec<usize> {
+        self.verif_inner()
+            .sources_with_additional_lifecycle_events
+            .borrow()
+            .values
+            .iter()
+            .map(|t| t.verif_key())
+            .collect()
+    }
+}
+
+impl Token {
+    /// The raw key handed to the poller for this token.
+    pub fn verif_key(&self) -> usize {
+        self.inner.into()
+    }
+}
+
+impl RegistrationToken {
+    /// The raw key (sub-id 0) of this registration.
+    pub fn verif_key(&self) -> usize {
+        self.verif_inner().into()
+    }
+}
+
+/// key = pack(id, version, sub_id), through calloop's own conversion.
+pub fn pack(id: u32, version: u16, sub_id: u16) -> usize {
+    TokenInner::verif_from_fields(id, version, sub_id).into()
+}
+
+/// (id, version, sub_id) = unpack(key), through calloop's own conversion.
+pub fn unpack(key: usize) -> (u32, u16, u16) {
+    TokenInner::from(key).verif_fields()
+}
+
+/// Key after `increment_version`.
+pub fn bump_version(key: usize) -> usize {
+    TokenInner::from(key).increment_version().into()
+}
+
+/// Key after `increment_sub_id` (panics when not representable).
+pub fn bump_sub_id(key: usize) -> usize {
+    TokenInner::from(key).increment_sub_id().into()
+}
+
+/// Key after `forget_sub_id`.
+pub fn forget_sub_id(key: usize) -> usize {
+    TokenInner::from(key).forget_sub_id().into()
+}
+
+/// `same_source_as` on two keys.
+pub fn same_source(k1: usize, k2: usize) -> bool {
+    TokenInner::from(k1).same_source_as(TokenInner::from(k2))
+}
+
+/// `TokenInner::new(id)` as a key, `None` when the id is rejected.
+pub fn new_key(id: usize) -> Option<usize> {
+    TokenInner::new(id).ok().map(Into::into)
+}
+
+/// A token factory for the source identified by `key`.
+pub fn token_factory(key: usize) -> TokenFactory {
+    TokenFactory::new(TokenInner::from(key))
+}
+
+/// The reserved notification key of the poller.
+pub fn poller_notify_key() -> usize {
+    usize::MAX
+}
+
+/// Yields the given site when dropped.
+pub struct YieldOnDrop(pub Site, pub SiteKind);
+
+impl Drop for YieldOnDrop {
+    fn drop(&mut self) {
+        yield_point(self.0, self.1);
+    }
+}
+
+/// Yield the "pre" site now and the "post" site when the returned guard is dropped.
+pub fn yield_around(pre: Site, post: Site) -> YieldOnDrop {
+    yield_point(pre, SiteKind::Normal);
+    YieldOnDrop(post, SiteKind::Normal)
+}
